@@ -12,6 +12,7 @@ func init() {
 					{Fn: "Harness_C05_roundtrip", Tiers: "both", Reach: []string{"end"}, Bounds: "2 keys x 3 contents, no fault"},
 					{Fn: "Harness_C05_fault", Tiers: "both", Reach: []string{"end"}, Bounds: "1 store; 1 fault from {writer dies at any offset of the copy, data file truncated to any shorter length / removed / trailing garbage, index entry truncated at 5 cut points / removed / replaced by the other key's entry / trailing garbage} over 2 keys (differing in the last id byte) and 3 contents (2, 3, 3 bytes; one a prefix of another)"},
 					{Fn: "Harness_C05_fault_then_crash", Tiers: "both", Reach: []string{"end"}, Bounds: "1 store, 1 fault, then a writer that dies at any offset while storing any content under either key"},
+					{Fn: "Harness_C05_lookup_fault_lookup", Tiers: "both", Reach: []string{"end"}, Bounds: "1 store, lookups of both keys, 1 fault, the same lookups again (one process: package-level state persists)"},
 					{Fn: "Harness_C05_history", Tiers: "both", Reach: []string{"end"}, Bounds: "1-2 stores, 1 fault, optional re-store, lookups of both keys through GetBytes and GetFile"},
 				},
 			}},
